@@ -102,6 +102,29 @@ pub fn run(ctx: &mut Ctx) {
     });
     ctx.require(&r, &["rendered"]);
 
+    // a'. the weekday / day-of-year / week tokens of a timestamp come from its date part whatever the time of day
+    let crit = crit_times();
+    let crit_r = &crit;
+    let r = ctx.sweep("dates_x_times_x_weekday_tokens", "all dates x 3 rotating critical times of day (incl. multiples of 2^32 µs and the last µs of the day) x weekday / day-of-year / week tokens on Timestamp and OracleDate", total, 1024, |range, acc| {
+        let cs = compile(&["DAY", "Dy", "D", "DDD", "WW", "W", "YYYY-MM-DD DY"]);
+        let mut c = cal.at(cal.min_day + range.start as i32);
+        for idx in range {
+            acc.states += 1;
+            for j in 0..3usize {
+                let t = crit_r[(idx as usize * 3 + j * 29) % crit_r.len()];
+                let f = Fields { year: c.y as i64, month: c.m, day: c.d, weekday: c.wd, doy: c.doy, hour: (t / US_HOUR) as u32, minute: (t / US_MIN % 60) as u32, second: (t / US_SEC % 60) as u32, micro: (t % US_SEC) as u32, negative: false };
+                let vals = [TV { ty: Ty::Timestamp, raw: c.n as i64 * US_DAY + t }, TV { ty: Ty::OracleDate, raw: c.n as i64 * US_DAY + t / US_SEC * US_SEC }];
+                for tv in &vals {
+                    for k in &cs {
+                        check_format(acc, idx, tv, &f, &k.fmt, &k.toks, &k.pic);
+                    }
+                }
+            }
+            c.next();
+        }
+    });
+    ctx.require(&r, &["rendered"]);
+
     // b. all seconds x every time token on Time; Timestamp / OracleDate on three dates
     let days3 = [cal.min_day, -1, cal.max_day];
     let r = ctx.sweep("seconds_x_time_tokens", "all 86,400 seconds x every time token (24h/12h hour, minute, second, all AM/PM spellings) on Time, and on Timestamp / OracleDate at three dates", 86_400, 512, |range, acc| {
@@ -252,6 +275,22 @@ pub fn run(ctx: &mut Ctx) {
         }
     });
     ctx.require(&r, &["rendered", "inapplicable_token_error"]);
+
+    // blank runs are copied with their length (every length 1..=600, powers of two up to 2^17)
+    let mut blens: Vec<usize> = (1..=600).collect();
+    for e in 10..=17u32 { blens.push(1 << e); blens.push((1 << e) + 1); }
+    let bl = &blens;
+    let r = ctx.sweep_each("blank_runs_copied", "pictures 'DD<n blanks>MM' for every n in 1..=600 and powers of two up to 2^17 on Date and IntervalYM ('MM' part), rendered with exactly n blanks", blens.len() as u64, 8, |idx, acc| {
+        let n = bl[idx as usize];
+        let pic = format!("YYYY{}MM", " ".repeat(n));
+        let toks = tokenize(pic.as_bytes()).unwrap();
+        let fmt = match guard(|| Formatter::try_new(&pic)) { Ok(Ok(f)) => f, _ => { acc.fail("C04:composite:picture-rejected", idx, || (format!("picture with a run of {n} blanks"), "Ok".into(), "Err".into(), String::new())); return; } };
+        acc.states += 1;
+        for tv in [TV { ty: Ty::Date, raw: 18_739 }, TV { ty: Ty::IntervalYM, raw: -17 }] {
+            check_format(acc, idx, &tv, &tv.fields(), &fmt, &toks, &format!("YYYY<{n} blanks>MM"));
+        }
+    });
+    ctx.require(&r, &["rendered"]);
 
     // f. applicability through the Display path: every (token, type) pair, write! into a sink
     let tys = ALL_TYPES;
